@@ -1,2 +1,57 @@
 (** C02 — obligations over the facts regenerated from /repo (Gen/C02Facts.v). *)
-Require Import Nib.C17.AnteFacts Nib.C02.Model Nib.C02.Current.
+From Coq Require Import List Bool Arith ZArith String.
+Import ListNotations.
+Require Import Nib.C17.AnteFacts Nib.C17.MsgTree Nib.C02.Model Nib.C02.Spec Nib.C02.Check Nib.C02.Proofs Nib.C02.Property.
+Require Import Nib.Gen.C02Facts Nib.C02.Current.
+
+(** What the theorems need of the code: signature decorators present and the installed SigGasConsumer is the
+    SDK default (eth_secp256k1 keys rejected); the wasm handler checks signer = contract; the EVM chain has the
+    signature, gas-prepayment and nonce decorators; routing: no option -> non-EVM, EVM option -> EVM chain,
+    any other option can never reach the EVM chain. *)
+Theorem C02_current_cfg_ok : cfg_okb current_cfg = true.
+Proof. vm_compute. reflexivity. Qed.
+
+(** Routing by extension option, and the only extension option the codec can decode is the EVM one. *)
+Theorem C02_current_routing :
+  route_of ext_switch NoExt = RouteNonEVM /\ route_of ext_switch EvmExt = RouteEVM /\
+  route_of ext_switch OtherExt = RouteReject /\ x_default ext_switch = ArmReject /\
+  registered_ext_options = ["ExtensionOptionsEthereumTx"%string].
+Proof. vm_compute. repeat split; reflexivity. Qed.
+
+(** Defence in depth (not needed by the theorems, checked so that their removal is noticed): the two Nibiru
+    guards sit in the non-EVM chain ahead of everything else and test the types they are meant to; the wasm
+    handler refuses MsgEthereumTx; ValidateBasic / fee / sequence decorators present; the EVM chain validates
+    that every message is a MsgEthereumTx and checks the sender account. *)
+Theorem C02_current_guards :
+  index_of N_PREVENT_ETH nonevm_chain = Some 0%nat /\ index_of N_AUTHZ_GUARD nonevm_chain = Some 1%nat /\
+  g_prevent current_cfg = true /\ g_authz current_cfg = true /\ wasm_no_eth current_cfg = true /\
+  vb_on current_cfg = true /\ fee_on current_cfg = true /\ seq_on current_cfg = true /\
+  e_vb current_cfg = true /\ e_acc current_cfg = true.
+Proof. vm_compute. repeat split; reflexivity. Qed.
+
+Theorem C02_holds_for_current_tree :
+  forall (w : world) (s0 : st) (h : list tx),
+    world_ok w -> Forall (tx_wf w) h -> grants_ok w s0 ->
+    grants_ok w (run_history current_cfg w s0 h) /\
+    forall l, In l (ran (run_history current_cfg w s0 h)) ->
+      In l (ran s0) \/ exists h1 x h2, h = (h1 ++ x :: h2)%list /\ admitted_in (run_history current_cfg w s0 h1) x l.
+Proof.
+  intros w s0 h. apply C02_history_eth_handler_only_behind_evm_ante.
+  apply C02_cfg_checker_sound. exact C02_current_cfg_ok.
+Qed.
+Print Assumptions C02_holds_for_current_tree.
+
+Theorem C02_nonce_and_refund_on_current_tree :
+  forall (w : world) (s : st) (x : tx),
+    world_ok w -> tx_wf w x -> grants_ok w s ->
+    forall a, w_is_eth w a = true ->
+      (seq_of s a <= seq_of (fst (deliver current_cfg w s x)) a)%nat /\
+      (bal_of (fst (deliver current_cfg w s x)) a <= bal_of s a)%Z.
+Proof.
+  intros w s x Hw Hwf Hg a Ha.
+  assert (Hc : cfg_ok current_cfg) by (apply C02_cfg_checker_sound; exact C02_current_cfg_ok).
+  split.
+  - apply C02_nonce_never_rewound; auto.
+  - apply C02_refund_covered_by_prepayment; auto.
+Qed.
+Print Assumptions C02_nonce_and_refund_on_current_tree.
